@@ -78,6 +78,7 @@ type C struct {
 	hookOwner *C
 	rllMemo   map[string]int
 	viaMemo   map[string]bool
+	sumMemo   map[string]Set
 	ctxMemo   map[string]bool
 }
 
